@@ -179,7 +179,7 @@ MUTANTS = [
          r"        time_displacement = min\(", r"        budget = random.expovariate(setting.beta)\n        time_displacement = min(", "R1.1", regex=True),
     Edit("dipole factor missing from the file", "jellyfysh/config_files/factor_set_files/factor_set_dipoles_atomic.txt", "[1, 2], Repulsive\n", "", "R1.2"),
     Edit("harmonic power differs in one variant", D + "dipoles/cell_veto.ini", r"(\[HarmonicPotential\]\n(?:[^\[]*\n)*?power = )2", r"\g<1>4", "R1.3", regex=True),
-    Edit("temperature differs in one variant", D + "coulomb_atoms/cell_veto.ini", r"(\[HypercubicSetting\]\n(?:[^\[]*\n)*?beta = )1(\.0)?\n", r"\g<1>2\n", "R1.3", regex=True),
+    Edit("temperature differs in one variant", D + "coulomb_atoms/cell_veto.ini", "system_length = 1\nbeta = 2\n", "system_length = 1\nbeta = 3\n", "R1.3"),
     Edit("charges differ in one variant", D + "dipoles/atom_factors.ini", "charge_values = 1, -1", "charge_values = 1, -2", "R1.3"),
     Edit("lifting unbalanced", "jellyfysh/lifting/lifting.py", "            elif not self._active_recorded:\n", "            else:\n", "R5.1"),
     Edit("acceptance reversed", EH + "abstracts/event_handler_with_bounding_potential.py",
